@@ -846,6 +846,11 @@ impl super::DiskFS for Disk {
         return Err(Box::new(Error::SyntaxError));
     }
     fn delete(&mut self,name: &str) -> STDRESULT {
+        // a name that is too long would be cut down to 30 characters, which can be the name of another file
+        if !is_name_valid(&name) {
+            log::error!("name is invalid, perhaps use hex escapes");
+            return Err(Box::new(Error::SyntaxError));
+        }
         let vconst = self.get_vtoc_constants()?;
         let mut buf: Vec<u8> = vec![0;256];
         let fname = string_to_file_name(name);
